@@ -31,11 +31,13 @@ def repaired(rng, X):
     return Y
 
 
-def make_session(rng, nmin, nmax, tmax, neg=False, with_empty=True, nbase=3):
+def make_session(rng, nmin, nmax, tmax, neg=False, with_empty=True, nbase=3, far=False):
     """list of diagrams (ticks) with relations the spec will discover: permutation, added diagonal points, diagonal translation, rescaling"""
     bases = [rand_dgm(rng, rng.randint(nmin, nmax), tmax, neg) for _ in range(nbase)]
     X, Y = bases[0], bases[1]
     t = rng.choice([3, 7, -5] + ([-2 * tmax - 3] if neg else []))
+    if far:     # a diagonal translation by 1e5..1e6 ticks: persistence becomes tiny relative to the coordinates
+        t = rng.choice([10 ** 5, 3 * 10 ** 5, 10 ** 6, -10 ** 6])
     f = rng.choice([2, 3])
     S = list(bases)
     S.append(rng.sample(X, len(X)))                                            # reordering
